@@ -60,6 +60,11 @@ class Interp:
             return VTuple([self.fresh_value(et, "%s_%d" % (hint, i)) for i, et in enumerate(t.elems)], t)
         if isinstance(t, TRec):
             return VRec({fn: self.fresh_value(ft, "%s_%s" % (hint, fn)) for fn, ft in t.fields.items()}, t)
+        if isinstance(t, TMutRec):
+            e = p.fresh(hint, t.sort())
+            for fn, ft in t.fields.items():
+                self._assume_wf_expr(t.acc(fn, e), ft)
+            return t.wrap(e)
         if isinstance(t, TList):
             arr = p.fresh(hint + "_arr", z3.ArraySort(z3.IntSort(), t.elem.sort()))
             n = p.fresh(hint + "_n", z3.IntSort())
@@ -220,6 +225,7 @@ class Interp:
             return c
         elif isinstance(v, VDictRec):
             c = VDictRec({})
+            c.mt = v.mt
             memo[id(v)] = c
             for fn, fv in v.fields.items():
                 c.fields[fn] = self.clone_value(fv, memo)
@@ -387,6 +393,13 @@ class Interp:
         if isinstance(a, VSet) and isinstance(b, VSet) and a.kt == b.kt:
             k = z3.Const(self.path.fresh_name("eq_k"), a.kt.sort())
             return z3.ForAll([k], z3.Select(a.dom, k) == z3.Select(b.dom, k))
+        if isinstance(a, VDictRec) and isinstance(b, VDictRec) and (a.mt is not None or b.mt is not None):
+            # by-value records: python dict equality is structural
+            mt = a.mt if a.mt is not None else b.mt
+            try:
+                return unwrap(a, mt) == unwrap(b, mt)
+            except TypeError:
+                return z3.BoolVal(False)
         if isinstance(a, (VObj, VFunc, VClass, VDictRec, VOpaque)) or isinstance(b, (VObj, VFunc, VClass, VDictRec, VOpaque)):
             if isinstance(a, VClass) and isinstance(b, VClass):
                 return z3.BoolVal(a.name == b.name)
@@ -414,6 +427,8 @@ class Interp:
                 x, y = to_int(a), to_int(b)
             return x < y if strict else x <= y
         if isinstance(a, VStr) and isinstance(b, VStr):
+            if getattr(self.ver, "abstract_str_order", False):
+                return self.abstract_str_le(a.e, b.e, strict)
             return (a.e < b.e) if strict else (a.e <= b.e)
         if isinstance(a, VTuple) and isinstance(b, VTuple):
             return self._lex(a.items, b.items, strict)
@@ -423,6 +438,26 @@ class Interp:
         if self.spec:
             raise Unsupported("ordering of %s and %s" % (type(a).__name__, type(b).__name__))
         self.raise_exc("TypeError", "unorderable")
+
+    def abstract_str_le(self, x, y, strict):
+        """per-contract option abstract_str_order: the lexicographic order of strings is replaced by an
+        uninterpreted *total order* `str_le` (reflexive, antisymmetric, transitive, total).  Sound: every obligation
+        proved for an arbitrary total order holds for the real one (facts imported from callee contracts are read
+        through the same abstraction and hold for the real order); z3's native str.< / str.<= make goals with
+        order axioms over symbolic strings (sorted(key=...(.., id))) intractable."""
+        f = z3.Function("str_le", z3.StringSort(), z3.StringSort(), z3.BoolSort())
+        if not getattr(self.path, "_strord_axioms", False):
+            self.path._strord_axioms = True
+            a, b, c = z3.Strings("so_a so_b so_c")
+            self.path.assume(z3.ForAll([a], f(a, a), patterns=[f(a, a)]))
+            self.path.assume(z3.ForAll([a, b], z3.Or(f(a, b), f(b, a)), patterns=[f(a, b)]))
+            self.path.assume(z3.ForAll([a, b], z3.Implies(z3.And(f(a, b), f(b, a)), a == b), patterns=[z3.MultiPattern(f(a, b), f(b, a))]))
+            self.path.assume(z3.ForAll([a, b, c], z3.Implies(z3.And(f(a, b), f(b, c)), f(a, c)),
+                                       patterns=[z3.MultiPattern(f(a, b), f(b, c))]))
+            self.ver.note_assumption("string order abstracted to an uninterpreted total order (contract option abstract_str_order)")
+        if strict:
+            return z3.And(f(x, y), x != y)
+        return f(x, y)
 
     def _lex(self, xs, ys, strict):
         if not xs or not ys:
@@ -650,6 +685,9 @@ class Interp:
             return a
         if z3.is_false(c):
             return b
+        if isinstance(a, VDictRec) and isinstance(b, VDictRec) and (a.mt is not None or b.mt is not None) and self.spec:
+            mt = a.mt if a.mt is not None else b.mt   # by-value records (spec level only: the result is a copy)
+            return mt.wrap(z3.If(c, unwrap(a, mt), unwrap(b, mt)))
         if isinstance(a, (VObj, VFunc, VDictRec)) or isinstance(b, (VObj, VFunc, VDictRec)):
             if a is b:
                 return a
@@ -1332,19 +1370,97 @@ class Interp:
         for t in getattr(s, "targets", [getattr(s, "target", None)]):
             if t is not None:
                 _target_names(t, names)
+        cnt = self.__dict__.setdefault("_assign_cnt", {})
         for nm in sorted(names):
-            for i, cl in enumerate(c.asserts.get(nm, [])):
-                if cl.startswith("ghost:"):
-                    self.exec_ghost(cl[6:], env)
+            # "var" = after every assignment of var; "var@k" = only after its k-th assignment on this path (1-based)
+            cnt[nm] = cnt.get(nm, 0) + 1
+            for key in (nm, "%s@%d" % (nm, cnt[nm])):
+                for i, cl in enumerate(c.asserts.get(key, [])):
+                    if cl.startswith("ghost:"):
+                        self.exec_ghost(cl[6:], env)
+                        continue
+                    if cl.startswith("abstract:"):
+                        # abstraction at the cut point (sound: hypotheses are only dropped, and only proved facts are
+                        # kept): the named list local gets a fresh value about which exactly the clauses proved above at
+                        # this cut point are assumed; the engine's defining axioms of the old value (comprehension /
+                        # permutation / order facts mentioning its array symbol) are removed from the path condition
+                        tgt = env.lookup(cl[9:].strip())
+                        if not isinstance(tgt, VSeq):
+                            raise Unsupported("abstract: %s is not a list local" % cl[9:])
+                        self.forget_facts_about([tgt.arr])
+                        org = tgt.origin
+                        self.havoc_inplace(tgt, "abs_" + cl[9:].strip())
+                        tgt.origin = org
+                        n0 = len(self.path.pc)
+                        for prev in c.asserts.get(key, [])[:i]:
+                            if not prev.startswith(("ghost:", "abstract:", "forget:", "check:", "forget-axioms:")):
+                                self.path.assume(self.eval_spec(prev, env, assume=True))
+                        self.__dict__.setdefault("_cut_facts", {})[key] = list(self.path.pc[n0:])
+                        continue
+                    if cl.startswith("forget-axioms:"):
+                        # drop the engine's defining axioms (comprehension / permutation / order facts) of a list local
+                        # from the path condition: later obligations no longer see how it was computed
+                        tgt = env.lookup(cl[14:].strip())
+                        if not isinstance(tgt, VSeq):
+                            raise Unsupported("forget-axioms: %s is not a list local" % cl[14:])
+                        self.forget_facts_about([tgt.arr])
+                        continue
+                    if cl.startswith("check:"):
+                        # proved here (named obligation) but not kept as a hypothesis
+                        self.path.prove(self.eval_spec(cl[6:], env), "%s/assert-after:%s#%d" % (c.short, key, i), "assert",
+                                        where=cl[6:], assume_form=z3.BoolVal(True))
+                        continue
+                    if cl.startswith("forget:"):
+                        # drop the facts that an earlier abstraction cut point (by key) had assumed
+                        gone = set(f.get_id() for f in self.__dict__.get("_cut_facts", {}).get(cl[7:].strip(), []))
+                        self.path.pc = [f for f in self.path.pc if f.get_id() not in gone]
+                        continue
+                    if cl.startswith("forget-vars:"):
+                        self.forget_facts([x.strip() for x in cl[12:].split(",")], env)
+                        continue
+                    if cl.startswith("define:"):
+                        self.define_abbrev(cl[7:], nm, env, "%s/assert-after:%s#%d" % (c.short, key, i))
+                        continue
+                    self.path.prove(self.eval_spec(cl, env), "%s/assert-after:%s#%d" % (c.short, key, i), "assert", where=cl,
+                                    assume_form=self.eval_spec(cl, env, assume=True))
+
+    def forget_facts_about(self, exprs):
+        """remove from the path condition every quantified fact that mentions an uninterpreted array constant
+        occurring in one of `exprs` (weakening the hypotheses is always sound)"""
+        syms = set()
+        seen = set()
+        stack = list(exprs)
+        while stack:
+            x = stack.pop()
+            if x.get_id() in seen:
+                continue
+            seen.add(x.get_id())
+            if z3.is_quantifier(x):
+                stack.append(x.body())
+            elif z3.is_app(x):
+                if x.num_args() == 0 and x.decl().kind() == z3.Z3_OP_UNINTERPRETED and z3.is_array(x):
+                    syms.add(x.decl().name())
+                stack.extend(x.children())
+        if not syms:
+            return
+
+        def mentions(f):
+            sn = set()
+            st = [f]
+            while st:
+                y = st.pop()
+                if y.get_id() in sn:
                     continue
-                if cl.startswith("forget:"):
-                    self.forget_facts([x.strip() for x in cl[7:].split(",")], env)
-                    continue
-                if cl.startswith("define:"):
-                    self.define_abbrev(cl[7:], nm, env, "%s/assert-after:%s#%d" % (c.short, nm, i))
-                    continue
-                self.path.prove(self.eval_spec(cl, env), "%s/assert-after:%s#%d" % (c.short, nm, i), "assert", where=cl,
-                                assume_form=self.eval_spec(cl, env, assume=True))
+                sn.add(y.get_id())
+                if z3.is_quantifier(y):
+                    st.append(y.body())
+                elif z3.is_app(y):
+                    if y.num_args() == 0 and y.decl().kind() == z3.Z3_OP_UNINTERPRETED and y.decl().name() in syms:
+                        return True
+                    st.extend(y.children())
+            return False
+        from .core import _has_quant
+        self.path.pc = [f for f in self.path.pc if not (_has_quant(f) and mentions(f))]
 
     def define_abbrev(self, src, var, env, oname):
         """cut-point clause `define:<uf term> := <defining expr>` after an assignment to local `var`:
@@ -1878,6 +1994,7 @@ class Interp:
                 raise Unsupported("loop assigns list '%s' of unknown element type; declare it in locals" % nm)
             else:
                 env.find_env(nm).vars[nm] = self.fresh_value(typeof(cur), "lv_" + nm)
+        from .modset import _root
         for p in paths:
             try:
                 node = self.ver.parse_spec(p) if isinstance(p, str) else p
@@ -1903,6 +2020,8 @@ class Interp:
                 if isinstance(v, (VSeq, VMap, VSet, VObj, VDictRec)):
                     self.havoc_inplace(v, "lm")
             except Unsupported:
+                if getattr(node, "_alias_src", False):
+                    continue   # a name of the binding expression that is not a variable here (builtin, comprehension var)
                 raise
         self.havoc_ghost_targets(s, env)
 
